@@ -4,6 +4,7 @@ blocks each behind a 0xFC token, the stop token — and what a sequence of block
 the card's memory.
 -/
 import Sdmmc.Lemmas.SdCardSim2Multi
+import Sdmmc.Lemmas.SdFraming
 
 namespace Sdmmc.Lemmas.SdCardSim2
 open Sdmmc.Model Sdmmc.Spec.Card Sdmmc.Model.Sd Sdmmc.Lemmas.Sd Sdmmc.Gen Sdmmc.Lemmas.SdCardSim
@@ -85,14 +86,15 @@ theorem writeBlocks_card : ∀ (blocks : List Bytes) (m : Nat) (s : St Card),
 
 theorem step_stop (c : Card) (hb : c.cmdBuf = []) (n : Nat) (hp : c.phase = .recvToken true n)
     (ho : c.out = []) (hz : c.busyLeft = 0) :
-    step c 0xFD = ({ c with phase := .ready, busyLeft := c.busy, out := [] }, 0xFF) := by
+    step c 0xFD = ({ c with phase := .ready, busyLeft := c.busy, out := List.replicate c.stopGap 0xFF }, 0xFF) := by
   rcases c with ⟨kind, mem, csd, cap, ncr, nac, busy, initPolls, idle, spiMode, crcOn, appCmd, cmd8Seen,
     initLeft, initialised, out, busyLeft, cmdBuf, phase, streaming, preErase, violations, commands⟩
   simp only at hb hp ho hz
   subst hb hp ho hz
   simp [step]
 
-/-- `write` with any number of blocks other than one takes the multiple-block path. -/
+/-- `write` with any number of blocks other than one takes the multiple-block path: ACMD23, a busy
+wait, CMD25, then the block loop and — whatever the loop did — the stop sequence (`writeRest`). -/
 theorem write_eq_multi {σ : Type} (B : BusOps σ) (blocks : List Bytes) (idx : Nat) (h : blocks.length ≠ 1) :
     Sd.write B blocks idx = (do
       let s ← S.get
@@ -100,29 +102,95 @@ theorem write_eq_multi {σ : Type} (B : BusOps σ) (blocks : List Bytes) (idx : 
       let _ ← cardAcmd B ACMD23 (blocks.length % 4294967296)
       waitNotBusy B DEFAULT_WRITE_RETRIES
       let _ ← cardCommand B CMD25 start
-      writeBlocks B blocks
-      waitNotBusy B DEFAULT_WRITE_RETRIES
-      writeByte B (UInt8.ofNat STOP_TRAN_TOKEN)
-      waitNotBusy B DEFAULT_WRITE_RETRIES) := by
+      writeRest B blocks) := by
   match blocks, h with
   | [], _ => rfl
   | [_], h => exact absurd rfl h
   | _ :: _ :: _, _ => rfl
 
-/-- `write(blocks, idx)` for any number of blocks other than one, any card kind: ACMD23, CMD25,
-the blocks, the stop token, and the final busy wait (budget `DEFAULT_WRITE_RETRIES`) for the card
-to finish programming: the card is left not busy. -/
-theorem write_multi_card (s : St Card) (hS : Settled s.bus)
+/-- The stop sequence against a card inside a multiple-block write that is busy within the write
+budget, for a card that takes no or one byte (`stopGap ≤ 1`) to signal busy after the stop token:
+the busy wait, the stop token, the byte that is clocked and discarded (it swallows the gap byte,
+or the first busy byte), the wait for the end of programming.  The card leaves the write and is
+not busy any more. -/
+theorem stopWrite_card (s : St Card) (n : Nat) (hcb : s.bus.cmdBuf = []) (hp : s.bus.phase = .recvToken true n)
+    (ho : s.bus.out = []) (hst : s.bus.streaming = none) (hbl : s.bus.busyLeft ≤ DEFAULT_WRITE_RETRIES)
+    (hbusy : s.bus.busy ≤ DEFAULT_WRITE_RETRIES) (hgap : s.bus.stopGap ≤ 1) :
+    ∃ s', stopWrite cardBus s = (.ok (), s') ∧
+      StAt s { s.bus with phase := .ready, busyLeft := 0, out := [] } s' := by
+  obtain ⟨s6, h6, a6⟩ := waitNotBusy_card2 DEFAULT_WRITE_RETRIES s ⟨hcb, by rw [hp]; rfl⟩ ho hbl
+  have hs7 := step_stop s6.bus (by rw [a6.1]; exact hcb) n (by rw [a6.1]; exact hp) (by rw [a6.1]; exact ho)
+    (by rw [a6.1]; rfl)
+  obtain ⟨s7, h7, a7⟩ := writeByte_card (UInt8.ofNat STOP_TRAN_TOKEN) s6 _ _ hs7
+  have hb7 : s7.bus = { s.bus with phase := .ready, busyLeft := s.bus.busy,
+                                   out := List.replicate s.bus.stopGap 0xFF } := by
+    rw [a7.1, a6.1]; rfl
+  have hL7 : Listening s7.bus := by rw [hb7]; exact ⟨hcb, rfl⟩
+  -- the discarded byte
+  have hrb : ∃ s7' g bl, readByte cardBus s7 = (.ok g, s7') ∧ bl ≤ DEFAULT_WRITE_RETRIES ∧
+      StAt s7 { s.bus with phase := .ready, busyLeft := bl, out := [] } s7' := by
+    have hg : s.bus.stopGap = 0 ∨ s.bus.stopGap = 1 := by omega
+    rcases hg with hg | hg
+    · have ho7 : s7.bus.out = [] := by rw [hb7, hg]; rfl
+      cases hk : s.bus.busy with
+      | zero =>
+        refine ⟨_, _, 0, readByte_idle s7 hL7 ho7 (by rw [hb7]; exact hk), Nat.zero_le _, ?_, rfl, rfl, rfl⟩
+        show s7.bus = _
+        rw [hb7, hg, hk]; rfl
+      | succ k =>
+        refine ⟨_, _, k, readByte_busy s7 hL7 ho7 k (by rw [hb7]; exact hk), by omega, ?_, rfl, rfl, rfl⟩
+        show setBusy s7.bus k = _
+        rw [hb7, hg]; rfl
+    · refine ⟨_, _, s.bus.busy, readByte_pop s7 hL7 0xFF [] (by rw [hb7, hg]; rfl), hbusy, ?_, rfl, rfl, rfl⟩
+      show popTo s7.bus [] = _
+      rw [hb7]
+      show drain _ = _
+      refine (drain_none _ ?_).trans ?_
+      · exact hst
+      · rfl
+  obtain ⟨s7', g, bl, hr7, hbl7, a7'⟩ := hrb
+  obtain ⟨s8, h8, a8⟩ := waitNotBusy_card2 DEFAULT_WRITE_RETRIES s7' (by rw [a7'.1]; exact ⟨hcb, rfl⟩) (by rw [a7'.1])
+    (by rw [a7'.1]; exact hbl7)
+  refine ⟨s8, ?_, ?_⟩
+  · unfold stopWrite
+    rw [bind_ok h6, bind_ok h7, bind_ok hr7]; exact h8
+  · have h := ((a6.trans a7).trans a7').trans a8
+    refine ⟨?_, h.2.1, h.2.2.1, h.2.2.2⟩
+    rw [a8.1, a7'.1]; rfl
+
+/-- The two outcomes of `writeRest` that matter here. -/
+theorem writeRest_ok {σ : Type} (B : BusOps σ) (blocks : List Bytes) (s s1 s2 : St σ)
+    (h1 : writeBlocks B blocks s = (.ok (), s1)) (h2 : stopWrite B s1 = (.ok (), s2)) :
+    writeRest B blocks s = (.ok (), s2) := by
+  have hat1 : S.attempt (writeBlocks B blocks) s = (.ok (.ok ()), s1) := by rw [attempt_apply, h1]
+  have hat2 : S.attempt (stopWrite B) s1 = (.ok (.ok ()), s2) := by rw [attempt_apply, h2]
+  unfold writeRest
+  rw [bind_ok hat1]
+  simp only
+  rw [bind_ok hat2]
+  rfl
+
+theorem writeRest_err {σ : Type} (B : BusOps σ) (blocks : List Bytes) (s s1 s2 : St σ) (e : SdErr)
+    (h1 : writeBlocks B blocks s = (.err e, s1)) (h2 : stopWrite B s1 = (.ok (), s2)) :
+    writeRest B blocks s = (.err e, s2) := by
+  have hat1 : S.attempt (writeBlocks B blocks) s = (.ok (.err e), s1) := by rw [attempt_apply, h1]
+  have hat2 : S.attempt (stopWrite B) s1 = (.ok (.ok ()), s2) := by rw [attempt_apply, h2]
+  unfold writeRest
+  rw [bind_ok hat1]
+  simp only
+  rw [bind_ok hat2]
+  rfl
+
+/-- Everything of a multiple-block write up to and including CMD25. -/
+theorem write_multi_start_card (s : St Card) (hS : Settled s.bus)
     (hbl : s.bus.busyLeft ≤ DEFAULT_COMMAND_RETRIES) (hncr : s.bus.ncr ≤ DEFAULT_COMMAND_RETRIES)
-    (hbusy : s.bus.busy ≤ DEFAULT_WRITE_RETRIES) (hcrc : s.bus.crcOn = true → s.useCrc = true)
-    (blocks : List Bytes) (idx start : Nat) (hn1 : blocks.length ≠ 1)
-    (hstart : startIdx s.cardType idx = .ok start) (h32 : start < 4294967296)
-    (hblk : blockOfArg s.bus start = some idx) (hidx : idx < s.bus.capacity)
-    (hcap : idx + blocks.length ≤ s.bus.capacity) (hlen : ∀ b ∈ blocks, b.length = 512) :
-    ∃ s', Sd.write cardBus blocks idx s = (.ok (), s') ∧
-      StAt s { s.bus with mem := writeMem s.bus.mem idx blocks, commands := s.bus.commands + 3, appCmd := false,
-                          preErase := blocks.length % 4294967296, busyLeft := 0, out := [],
-                          phase := .ready } s' := by
+    (len idx start : Nat) (h32 : start < 4294967296)
+    (hblk : blockOfArg s.bus start = some idx) (hidx : idx < s.bus.capacity) :
+    ∃ s2 s3 s4, cardAcmd cardBus ACMD23 (len % 4294967296) s = (.ok (0x00 : UInt8).toNat, s2) ∧
+      waitNotBusy cardBus DEFAULT_WRITE_RETRIES s2 = (.ok (), s3) ∧
+      cardCommand cardBus CMD25 start s3 = (.ok (0x00 : UInt8).toNat, s4) ∧
+      StAt s { s.bus with busyLeft := 0, commands := s.bus.commands + 3, appCmd := false, out := [],
+                          preErase := len % 4294967296, phase := .recvToken true idx } s4 := by
   obtain ⟨hi, hid, hcb, hp, hst, ho⟩ := hS
   have hL0 : Listening s.bus := ⟨hcb, by rw [hp]; rfl⟩
   -- CMD55
@@ -133,18 +201,18 @@ theorem write_multi_card (s : St Card) (hS : Settled s.bus)
     · exact hst
     · rfl
   -- ACMD23
-  obtain ⟨s2, h2, a2⟩ := cardCommand_card2 ACMD23 (blocks.length % 4294967296) (by decide) (by decide) (by decide)
+  obtain ⟨s2, h2, a2⟩ := cardCommand_card2 ACMD23 (len % 4294967296) (by decide) (by decide) (by decide)
     (Nat.mod_lt _ (by decide)) s1 (by rw [hb1]; exact hcb) (by rw [hb1]; exact hp) (by rw [hb1]; exact hst)
     (by rw [hb1]) (by rw [hb1]; exact Nat.zero_le _)
     _ (exec23 (setBusy s1.bus 0) (by rw [hb1]; exact hi) (by rw [hb1]; exact hst) (by rw [hb1]; exact hid)
       (by rw [hb1]; rfl) _)
     (by rw [hb1]; exact hL0) s.bus.ncr 0x00 [] (by rw [hb1]; rfl) hncr (by decide)
   have hb2 : s2.bus = { s.bus with busyLeft := 0, commands := s.bus.commands + 2, appCmd := false, out := [],
-                                   preErase := blocks.length % 4294967296 } := by
+                                   preErase := len % 4294967296 } := by
     rw [a2.1, hb1]; show drain _ = _; refine (drain_none _ ?_).trans ?_
     · exact hst
     · rfl
-  have hacmd : cardAcmd cardBus ACMD23 (blocks.length % 4294967296) s = (.ok (0x00 : UInt8).toNat, s2) := by
+  have hacmd : cardAcmd cardBus ACMD23 (len % 4294967296) s = (.ok (0x00 : UInt8).toNat, s2) := by
     unfold cardAcmd; rw [bind_ok h1]; exact h2
   -- wait_not_busy
   obtain ⟨s3, h3, a3⟩ := waitNotBusy_card2 DEFAULT_WRITE_RETRIES s2 (by rw [hb2]; exact hL0) (by rw [hb2])
@@ -158,45 +226,51 @@ theorem write_multi_card (s : St Card) (hS : Settled s.bus)
       (by rw [hb3, hb2]; exact hblk) (by rw [hb3, hb2]; exact hidx))
     (by rw [hb3, hb2]; exact ⟨hcb, rfl⟩) s.bus.ncr 0x00 [] (by rw [hb3, hb2]; rfl) hncr (by decide)
   have hb4 : s4.bus = { s.bus with busyLeft := 0, commands := s.bus.commands + 3, appCmd := false, out := [],
-                                   preErase := blocks.length % 4294967296, phase := .recvToken true idx } := by
+                                   preErase := len % 4294967296, phase := .recvToken true idx } := by
     rw [a4.1, hb3, hb2]; show drain _ = _; refine (drain_none _ ?_).trans ?_
     · exact hst
     · rfl
-  have hu4 : s4.useCrc = s.useCrc := (((a1.trans a2).trans a3).trans a4).2.2.1
+  have h := ((a1.trans a2).trans a3).trans a4
+  exact ⟨s2, s3, s4, hacmd, h3, h4, hb4, h.2.1, h.2.2.1, h.2.2.2⟩
+
+/-- `write(blocks, idx)` for any number of blocks other than one, any card kind: ACMD23, CMD25,
+the blocks, the stop token, and the final busy wait (budget `DEFAULT_WRITE_RETRIES`) for the card
+to finish programming: the card is left not busy — for a card that takes no or one byte to signal
+busy after the stop token (`stopGap ≤ 1`). -/
+theorem write_multi_card (s : St Card) (hS : Settled s.bus)
+    (hbl : s.bus.busyLeft ≤ DEFAULT_COMMAND_RETRIES) (hncr : s.bus.ncr ≤ DEFAULT_COMMAND_RETRIES)
+    (hbusy : s.bus.busy ≤ DEFAULT_WRITE_RETRIES) (hgap : s.bus.stopGap ≤ 1)
+    (hcrc : s.bus.crcOn = true → s.useCrc = true)
+    (blocks : List Bytes) (idx start : Nat) (hn1 : blocks.length ≠ 1)
+    (hstart : startIdx s.cardType idx = .ok start) (h32 : start < 4294967296)
+    (hblk : blockOfArg s.bus start = some idx) (hidx : idx < s.bus.capacity)
+    (hcap : idx + blocks.length ≤ s.bus.capacity) (hlen : ∀ b ∈ blocks, b.length = 512) :
+    ∃ s', Sd.write cardBus blocks idx s = (.ok (), s') ∧
+      StAt s { s.bus with mem := writeMem s.bus.mem idx blocks, commands := s.bus.commands + 3, appCmd := false,
+                          preErase := blocks.length % 4294967296, busyLeft := 0, out := [],
+                          phase := .ready } s' := by
+  obtain ⟨s2, s3, s4, hacmd, h3, h4, a4⟩ := write_multi_start_card s hS hbl hncr blocks.length idx start h32 hblk hidx
+  obtain ⟨hi, hid, hcb, hp, hst, ho⟩ := hS
+  have hb4 := a4.1
   -- the blocks
   obtain ⟨s5, bl, h5, hbl5, a5⟩ := writeBlocks_card blocks idx s4 (by rw [hb4]; exact hcb) (by rw [hb4]) (by rw [hb4])
     (by rw [hb4]; exact Nat.zero_le _) (by rw [hb4]; exact hst) (by rw [hb4]; exact hbusy) hlen
-    (by rw [hb4]; exact hcap) (by rw [hb4, hu4]; exact hcrc)
+    (by rw [hb4]; exact hcap) (by rw [hb4, a4.2.2.1]; exact hcrc)
   have hb5 : s5.bus = { s.bus with busyLeft := bl, commands := s.bus.commands + 3, appCmd := false, out := [],
                                    preErase := blocks.length % 4294967296,
                                    phase := .recvToken true (idx + blocks.length),
                                    mem := writeMem s.bus.mem idx blocks } := by
     rw [a5.1, hb4]
-  -- wait_not_busy
-  obtain ⟨s6, h6, a6⟩ := waitNotBusy_card2 DEFAULT_WRITE_RETRIES s5 (by rw [hb5]; exact ⟨hcb, rfl⟩) (by rw [hb5])
-    (by rw [hb5]; exact hbl5)
-  have hb6 : s6.bus = { s.bus with busyLeft := 0, commands := s.bus.commands + 3, appCmd := false, out := [],
-                                   preErase := blocks.length % 4294967296,
-                                   phase := .recvToken true (idx + blocks.length),
-                                   mem := writeMem s.bus.mem idx blocks } := by
-    rw [a6.1, hb5]; rfl
-  -- the stop token
-  have hs7 := step_stop s6.bus (by rw [hb6]; exact hcb) (idx + blocks.length) (by rw [hb6]) (by rw [hb6]) (by rw [hb6])
-  obtain ⟨s7, h7, a7⟩ := writeByte_card (UInt8.ofNat STOP_TRAN_TOKEN) s6 _ _ hs7
-  have hb7 : s7.bus = { s.bus with busyLeft := s.bus.busy, commands := s.bus.commands + 3, appCmd := false, out := [],
-                                   preErase := blocks.length % 4294967296, phase := .ready,
-                                   mem := writeMem s.bus.mem idx blocks } := by
-    rw [a7.1, hb6]
-  -- the final busy wait
-  obtain ⟨s8, h8, a8⟩ := waitNotBusy_card2 DEFAULT_WRITE_RETRIES s7 (by rw [hb7]; exact ⟨hcb, rfl⟩) (by rw [hb7])
-    (by rw [hb7]; exact hbusy)
+  -- the stop sequence
+  obtain ⟨s8, h8, a8⟩ := stopWrite_card s5 (idx + blocks.length) (by rw [hb5]; exact hcb) (by rw [hb5]) (by rw [hb5])
+    (by rw [hb5]; exact hst) (by rw [hb5]; exact hbl5) (by rw [hb5]; exact hbusy) (by rw [hb5]; exact hgap)
   refine ⟨s8, ?_, ?_⟩
   · rw [write_eq_multi cardBus blocks idx hn1]
     rw [bind_ok (get_apply s), hstart, bind_ok (show S.lift (SRes.ok start) s = (.ok start, s) from rfl)]
-    rw [bind_ok hacmd, bind_ok h3, bind_ok h4, bind_ok h5, bind_ok h6, bind_ok h7]
-    exact h8
-  · have h := ((((((a1.trans a2).trans a3).trans a4).trans a5).trans a6).trans a7).trans a8
+    rw [bind_ok hacmd, bind_ok h3, bind_ok h4]
+    exact writeRest_ok cardBus blocks s4 s5 s8 h5 h8
+  · have h := (a4.trans a5).trans a8
     refine ⟨?_, h.2.1, h.2.2.1, h.2.2.2⟩
-    rw [a8.1, hb7]; rfl
+    rw [a8.1, hb5]
 
 end Sdmmc.Lemmas.SdCardSim2
